@@ -23,6 +23,24 @@ CHECKS={
  "C14": dict(tech="exhaustive enumeration of small documents x boundaries x boundary pairs + proptest-generated long documents; round-trip, monotonicity and reference-model oracle", engine="inproc",
    text="Exploration: all documents <=6/8 symbols over {a, LF, 2/3/4-byte chars}: offset->position->offset identity, strict monotonicity, agreement with an independent UTF-16 client model at every boundary, and client-side slice equality for every ordered boundary pair; long random documents with sampled pairs.",
    note="Conversions reached through the `verif` hook wrappers around the crate-private functions every handler uses.", ref="DESIGN.md §5 C14"),
+ "C05": dict(tech="proptest-generated multi-module/multi-package workspaces from a scope-aware generator; reference-model oracle (Gleam scoping implemented in the generator) per identifier occurrence", engine="sandbox",
+   text="Exploration: 12k/300k generated workspaces with names from tiny pools (shadowing is the norm); every emitted identifier token carries the declaration Gleam binds it to; go-to-definition must land exactly there (focus contains the name token, inside the declaration node, right file), nowhere else, and nowhere for unbound names.",
+   note="The scoping model is mine (written from Gleam's rules); constructs glas does not lower are 'weak' occurrences (nothing accepted, wrong declaration not); known finding C05-F1 (guards) excluded by construction and replayed.", ref="DESIGN.md §5 C05"),
+ "C06": dict(tech="proptest-generated, corpus and damaged workspaces; metamorphic inverse-view oracle between references/highlight and go-to-definition over all identifier tokens", engine="sandbox",
+   text="Exploration: for every declaration reached by go-to-definition from any identifier token, references from EVERY occurrence spelled with its name must equal exactly the set of such occurrences plus the name token, without duplicates, and highlight must equal the in-file part.",
+   note="Alias spellings are outside the compared sets; module targets skipped.", ref="DESIGN.md §5 C06"),
+ "C07": dict(tech="proptest-generated, corpus and damaged workspaces; metamorphic rename / re-analyse / rename-back oracle", engine="sandbox",
+   text="Exploration: up to 25/80 renames per workspace to a fresh name; edits must be whole old-name tokens, disjoint, equal to references; a FRESH analysis of the edited workspace must resolve every identifier to the correspondingly mapped declaration and report the same syntax errors; renaming back must restore the text.",
+   note="Fresh names are of the token's own class; refusals are C08's subject.", ref="DESIGN.md §5 C07"),
+ "C08": dict(tech="proptest-generated three-package workspaces x exhaustive (identifier occurrence x 48 candidate names) matrix; reference-model oracle for name classes, locality and alias spellings", engine="sandbox",
+   text="Exploration: every identifier occurrence of every generated workspace (local root, external build/packages dependency, local path dependency) is renamed to each of 48 candidate names; refusals must match an independent model (name class per symbol kind, module, alias spelling, external package), prepare_rename must agree with rename, no accepted rename may edit a dependency.",
+   note="Symbol kind/locality/alias are known from the generator; the name-class model does not use the glas lexer.", ref="DESIGN.md §5 C08"),
+ "C10": dict(tech="proptest-generated broken workspaces x sweep of every query kind at every token-boundary offset; crash oracle in sandboxed worker processes", engine="sandbox",
+   text="Exploration: 3k/80k workspaces broken by damage, truncation, emptied files, self/unresolved/duplicate/cyclic imports, arity-mismatched clauses, alias cycles, non-ASCII identifiers, garbage files; ~500 query calls each. A panic is caught and attributed; a worker killed by a signal or stalled is confirmed alone.",
+   note="Offsets within 0..=len; known finding C10-F1 (import cycle with mutually recursive qualified calls => salsa cycle panic) excluded by construction and replayed.", ref="DESIGN.md §5 C10"),
+ "C20": dict(tech="same generated/broken workspaces x full query sweep; validity-predicate oracle over every reported range", engine="sandbox",
+   text="Exploration: every range of every answer of the sweep (about 1M ranges quick) is checked for workspace membership, bounds, char boundaries, focus inside full range, single-token coverage for name-like kinds, token alignment for completion replacement ranges, empty diagnostics only at token boundaries.",
+   note="Token ranges from the repository's lexer (C01 ties the tree to it).", ref="DESIGN.md §5 C20"),
 }
 
 NOT_YET={}
